@@ -17,6 +17,16 @@ from vf import framework as fw
 HEADER = """From Coercion.Base Require Import Plan.
 From Coercion.Query Require Import Rows Query Spec QueryCheck."""
 
+HINT = {("sqlite", "exists", "value"): "S1-like: Exists answers wrongly (original defect S1: the statement compared the literal 'id', always false)",
+        ("sqlite", "search", "stream-error"): "S2-like: the Search statement fails (original defect S2: IN (?,?)s syntax error for ByIDs / ByGroupIDs)",
+        ("sqlite", "search", "wrong-items"): "S2-like: Search returns the wrong plans (original defect S2: several statuses joined with AND: empty result)",
+        ("sqlite", "list", "never-closed"): "S3-like: the List stream is never closed",
+        ("sqlite", "search", "never-closed"): "the Search stream is never closed",
+        ("crash", None, "value"): "a background goroutine of the code under test killed the process (original defect S3: List used the connection after returning it to the pool)",
+        ("cosmos", "update", "value"): "S7-like: the search item written by UpdatePlan differs from the plan (original defect S7: swarm dropped, the plan vanishes from every query)",
+        ("cosmos", "create", "value"): "the search item written by Create differs from the plan",
+        ("cosmos", "query-text", "value"): "the query cosmosdb emits, evaluated over the search items actually written, does not select the matching plans"}
+
 WHAT = {1: "result (nil / error) of a mutation", 2: "cosmosdb search item written by the mutation",
         3: "Exists", 4: "Search", 5: "List", 6: "text/parameters of cosmosdb buildSearchQuery (AST differs from the model's)",
         7: "cosmosdb buildSearchQuery evaluated over the search items actually written"}
@@ -39,7 +49,7 @@ def merge_hist(cases, prefix):
 
 def run(ctx):
     ctx.static_and_proofs("query")
-    n = 90 if ctx.tier == "quick" else 1500
+    n = 234 if ctx.tier == "quick" else 3900
     cases = ctx.harness("c15", ["-n", str(n), "-tier", ctx.tier, "-scratch", ctx.work])
     if cases is None:
         ctx.evidence(dict(evaluations=0, distinct_nontrivial=0, rule="harness did not run", samples=[]))
@@ -85,7 +95,7 @@ def run(ctx):
                 seen[key] += 1
                 continue
             seen[key] = 1
-            ctx.violation(replay(e, dict(classification=label, failure_key=list(key),
+            ctx.violation(replay(e, dict(classification=label, failure_key=list(key), hint=HINT.get(key, ""),
                                          failing_observations_total=len(entries))), nofail=nofail)
         return seen
 
